@@ -29,7 +29,7 @@ ENGINE = "E3-scheduler+E1-svcgen-rig"
 TECHNIQUE = "deterministic scheduler over the real pool bookkeeping with fake worker processes; fault scripts against real pooled subprocess workers with a nonce-echo oracle"
 LEVEL_TEXT = (
     "Exploration: scheduled leg = every schedule up to the preemption bound (plus PCT samples) over line-level yield "
-    "points of pool.py for small actor sets and max_idle in 0..2; real leg = each misbehaving-borrower script followed "
+    "points of pool.py for small actor sets and max_idle in 0..2; actor sets include a second worker command sharing the pool; real leg = each misbehaving-borrower script (incl. a reply the client cannot convert) followed "
     "by a nonce-echo probe on real worker subprocesses. Held = no explored execution handed one worker to two "
     "borrowers, handed out a dead/closed worker, exceeded max_idle at a quiescent point, or let a borrower read another borrower's response."
 )
